@@ -31,6 +31,7 @@ use buffers::trim_byte;
 //@@ include settings_types
 #[verifier::external_type_specification] #[verifier::external_body] pub struct ExInstant(Instant);
 //@@ include write_prelude
+//@@ include fmt_prelude
 //@@ include streams_real_prelude
 //@@ include streams_code
 }
